@@ -95,7 +95,7 @@ SeedByDefinition(m, p) == LET io == SeedInputs(m, p) IN KDF!DeriveDef(io[1], io[
 \* what golang.org/x/text computes instead when a run of >30 non-starters occurs (finding F3)
 StreamSafeSeed(m, p) == KDF!Derive(U8!Encode(StreamSafeNFKD(m)),
                                    U8!Encode(StreamSafeNFKD(MnemonicLit \o p)), 2048, 64)
-HasLongRun(m, p) == MaxNonStarterRun(m) > 30 \/ MaxNonStarterRun(MnemonicLit \o p) > 30
+HasLongRun(m, p) == StreamSafeDiffers(m) \/ StreamSafeDiffers(MnemonicLit \o p)
 
 ------------------------------------------------------------------------------
 \* Language names
